@@ -18,19 +18,30 @@ Fixpoint dget (k : bytes) (d : dict) : option Z :=
   end.
 Definition default0 (o : option Z) : Z := match o with Some v => v | None => 0 end.
 
-(*  for line in f: fields = line.split(); mems[fields[0]] = int(fields[1]) * 1024  *)
-Definition mem_step (d : dict) (line : bytes) : outcome dict :=
+(*  for line in f: fields = line.split(); mems[fields[0]] = int(fields[1]) * 1024
+   [lenient] = false is the code as it is now: a line with fewer than two fields raises
+   IndexError, a non-numeric second field raises ValueError (RHS is evaluated first).
+   [lenient] = true is the code with notes/fixes/C08-meminfo-legacy-header.diff applied
+   (try: ... except (IndexError, ValueError): continue). *)
+Definition mem_step (lenient : bool) (d : dict) (line : bytes) : outcome dict :=
   let fields := split_ws line in
-  do v <- of_option IndexError (nth_error fields 1);
-  do n <- py_int v;
-  do k <- of_option IndexError (nth_error fields 0);
-  Val (dset k (n * 1024) d).
-Fixpoint mem_fold (d : dict) (ls : list bytes) : outcome dict :=
+  match nth_error fields 1 with
+  | None => if lenient then Val d else Exc IndexError
+  | Some v =>
+    match parse_int v with
+    | None => if lenient then Val d else Exc ValueError
+    | Some n =>
+      do k <- of_option IndexError (nth_error fields 0);
+      Val (dset k (n * 1024) d)
+    end
+  end.
+Fixpoint mem_fold (lenient : bool) (d : dict) (ls : list bytes) : outcome dict :=
   match ls with
   | [] => Val d
-  | l :: r => do d' <- mem_step d l; mem_fold d' r
+  | l :: r => do d' <- mem_step lenient d l; mem_fold lenient d' r
   end.
-Definition parse_meminfo (content : bytes) : outcome dict := mem_fold [] (lines_keep content).
+Definition parse_meminfo (lenient : bool) (content : bytes) : outcome dict :=
+  mem_fold lenient [] (lines_keep content).
 
 (* ------------------------------------------------ usage_percent(used, total, round_=1)
    The result is a float with one decimal; the model returns it in TENTHS, computed
@@ -85,27 +96,65 @@ Fixpoint zone_low (acc : Z) (ls : list bytes) : outcome Z :=
     else zone_low acc r
   end.
 
-(* The float expressions  pagecache / 2  and  slab_reclaimable / 2.0  are kept exact by
-   computing twice the value; int(avail) truncates toward zero (Z.quot). *)
-Definition calc_avail (pagesize : Z) (d : dict) (zoneinfo : option bytes) : outcome Z :=
-  do free <- of_option KeyError (dget K_MemFree d);
-  let fallback := free + default0 (dget K_Cached d) in
-  match dget K_ActiveFile d, dget K_InactiveFile d, dget K_SReclaimable d with
-  | Some lru_active_file, Some lru_inactive_file, Some slab_reclaimable =>
-    match zoneinfo with
-    | None => Val fallback
-    | Some z =>
-      do wl0 <- zone_low 0 (lines_keep z);
-      let watermark_low := wl0 * pagesize in
-      let avail2 := 2 * (free - watermark_low) in
-      let pagecache := lru_active_file + lru_inactive_file in
-      let pagecache2 := 2 * pagecache - Z.min pagecache (2 * watermark_low) in
-      let avail2 := avail2 + pagecache2 in
-      let avail2 := avail2 + (2 * slab_reclaimable - Z.min slab_reclaimable (2 * watermark_low)) in
-      Val (Z.quot avail2 2)
-    end
-  | _, _, _ => Val fallback
-  end.
+(* Python numbers in this function are ints or floats (pagecache / 2 and
+   slab_reclaimable / 2.0 are floats, and so is everything computed from them).
+   A float is kept as TWICE its value ([PF h] is the double h/2: every float that
+   occurs here is an integer or a half-integer).  [rnd] is the rounding of an exact
+   result (in half units) to a double; it is a parameter: [rnd53] below is IEEE-754
+   binary64 round-to-nearest-even, the theorems only need that it leaves
+   representable numbers alone. *)
+Inductive pynum := PI (z : Z) | PF (h : Z).
+Definition half2 (x : pynum) : Z := match x with PI z => 2 * z | PF h => h end.
+Section FloatPath.
+  Variable rnd : Z -> Z.
+  Definition to_f (x : pynum) : Z := match x with PI z => rnd (2 * z) | PF h => h end.   (* float(x) *)
+  Definition py_sub (a b : pynum) : pynum :=
+    match a, b with
+    | PI x, PI y => PI (x - y)
+    | _, _ => PF (rnd (to_f a - to_f b))
+    end.
+  Definition py_add (a b : pynum) : pynum :=
+    match a, b with
+    | PI x, PI y => PI (x + y)
+    | _, _ => PF (rnd (to_f a + to_f b))
+    end.
+  (* min(a, b): b only when b < a (exact comparison of int and float) *)
+  Definition py_min (a b : pynum) : pynum := if half2 b <? half2 a then b else a.
+  (* int(x): truncation toward zero *)
+  Definition py_trunc (x : pynum) : Z := match x with PI z => z | PF h => Z.quot h 2 end.
+
+  Definition calc_avail_gen (pagesize : Z) (d : dict) (zoneinfo : option bytes) : outcome Z :=
+    do free <- of_option KeyError (dget K_MemFree d);
+    let fallback := free + default0 (dget K_Cached d) in
+    match dget K_ActiveFile d, dget K_InactiveFile d, dget K_SReclaimable d with
+    | Some lru_active_file, Some lru_inactive_file, Some slab_reclaimable =>
+      match zoneinfo with
+      | None => Val fallback
+      | Some z =>
+        do wl0 <- zone_low 0 (lines_keep z);
+        let watermark_low := wl0 * pagesize in
+        let avail := PI (free - watermark_low) in
+        let pagecache := lru_active_file + lru_inactive_file in
+        (* pagecache / 2 : true division of ints, correctly rounded *)
+        let pagecache' := py_sub (PI pagecache) (py_min (PF (rnd pagecache)) (PI watermark_low)) in
+        let avail := py_add avail pagecache' in
+        (* slab_reclaimable / 2.0 : float(slab_reclaimable), halved exactly *)
+        let avail := py_add avail (py_sub (PI slab_reclaimable)
+                                          (py_min (PF (rnd (2 * slab_reclaimable) / 2)) (PI watermark_low))) in
+        Val (py_trunc avail)
+      end
+    | _, _, _ => Val fallback
+    end.
+End FloatPath.
+
+(* IEEE-754 binary64 rounding of an integer (here: a value in half units; scaling by 2
+   does not change which numbers are representable): 53 significant bits, ties to even *)
+Definition rnd53 (x : Z) : Z :=
+  let a := Z.abs x in
+  if a <? 2 ^ 53 then x
+  else let p := 2 ^ (Z.log2 a - 52) in Z.sgn x * (round_he a p * p).
+
+Definition calc_avail := calc_avail_gen rnd53.
 
 (* ------------------------------------------------ virtual_memory() *)
 Record vmres := {
@@ -157,9 +206,11 @@ Definition vm_of_dict (pagesize : Z) (d : dict) (zoneinfo : option bytes) : outc
                       miss (bs "inactive") inactive_o ++
                       (if neg then [bs "available"] else []) |}.
 
-Definition virtual_memory (pagesize : Z) (meminfo : bytes) (zoneinfo : option bytes) : outcome vmres :=
-  do d <- parse_meminfo meminfo;
+Definition virtual_memory_gen (lenient : bool) (pagesize : Z) (meminfo : bytes) (zoneinfo : option bytes) : outcome vmres :=
+  do d <- parse_meminfo lenient meminfo;
   vm_of_dict pagesize d zoneinfo.
+(* the code as it is now *)
+Definition virtual_memory := virtual_memory_gen false.
 
 (* ------------------------------------------------ swap_memory()
    mul = PAGESIZE (see vm_field);
@@ -192,8 +243,8 @@ Fixpoint vmstat_loop (mul : Z) (sin sout : option Z) (ls : list bytes) : outcome
     end
   end.
 
-Definition swap_memory (mul : Z) (meminfo : bytes) (sysinfo : Z * Z * Z) (vmstat : option bytes) : outcome swapres :=
-  do d <- parse_meminfo meminfo;
+Definition swap_memory_gen (lenient : bool) (mul : Z) (meminfo : bytes) (sysinfo : Z * Z * Z) (vmstat : option bytes) : outcome swapres :=
+  do d <- parse_meminfo lenient meminfo;
   let '(total, free) :=
     match dget K_SwapTotal d, dget K_SwapFree d with
     | Some t, Some f => (t, f)
@@ -213,3 +264,27 @@ Definition swap_memory (mul : Z) (meminfo : bytes) (sysinfo : Z * Z * Z) (vmstat
         {| s_total := total; s_used := used; s_free := free; s_percent10 := percent;
            s_sin := 0; s_sout := 0; s_warned := true |}
       end.
+Definition swap_memory := swap_memory_gen false.
+
+(* ------------------------------------------------ psutil/__init__.py: _TOTAL_PHYMEM
+   virtual_memory():  ret = _psplatform.virtual_memory(); _TOTAL_PHYMEM = ret.total; return ret
+   Process.memory_percent():  total_phymem = _TOTAL_PHYMEM or virtual_memory().total
+                              if not total_phymem > 0: raise ValueError
+                              return (value / float(total_phymem)) * 100
+   The module global is the state [cache : option Z] (None at import).  [value] is the
+   process figure (rss by default).  The result is returned as the exact ratio
+   (numerator, denominator) of the percentage: value*100 / total. *)
+Definition front_vm (cache : option Z) (pagesize : Z) (meminfo : bytes) (zoneinfo : option bytes)
+  : option Z * outcome vmres :=
+  match virtual_memory pagesize meminfo zoneinfo with
+  | Val r => (Some (v_total r), Val r)
+  | o => (cache, o)
+  end.
+Definition memory_percent (cache : option Z) (value : Z) (pagesize : Z) (meminfo : bytes) (zoneinfo : option bytes)
+  : option Z * outcome (Z * Z) :=
+  let fresh := let '(c, o) := front_vm cache pagesize meminfo zoneinfo in (c, omap v_total o) in
+  let '(c, tot) := match cache with
+                   | Some t => if t =? 0 then fresh else (cache, Val t)     (* "x or y": 0 is falsy *)
+                   | None => fresh
+                   end in
+  (c, do t <- tot; if 0 <? t then Val (value * 100, t) else Exc ValueError).
